@@ -511,8 +511,9 @@ def gen_real(rng: random.Random):
             "one": rows(), "nst": rows(), "seed": rng.randrange(1 << 30)}
 
 
-def run_real(case):
+def run_real(case, tags=None):
     """real networks, random weights: oracle only (mass, mean, priorities = cross-entropy)"""
+    tags = [] if tags is None else tags
     from tensordict import TensorDict
     N, A, B = case["N"], case["A"], len(case["one"])
     torch.manual_seed(case["seed"])
@@ -555,6 +556,8 @@ def run_real(case):
                             .to(torch.float64).numpy())
         probe["k"] = None
         proj = np.stack(cols, axis=1)
+        if np.any(np.abs(p.sum(1) - 1.0) > 1e-4):
+            tags.append("real-source-mass-not-1")
         for i, r in enumerate(rows):
             tz = np.clip(r["r"] + (1 - r["d"]) * g * z, vmin, vmax)
             if abs(proj[i].sum() - p[i].sum()) > TOL * max(1.0, p[i].sum()):
@@ -581,9 +584,9 @@ def run_real(case):
     return problems
 
 
-def real_case(case):
+def real_case(case, tags=None):
     try:
-        return run_real(case), None
+        return run_real(case, tags), None
     except Exception as e:  # noqa: BLE001
         return [f"implementation raised {type(e).__name__}: {e}"], type(e).__name__
 
@@ -696,12 +699,13 @@ def run(chk: Check) -> None:
     for case, tags, origin in cases:
         if case.get("kind") == "real":
             n_real_run += 1
-            problems, raised = real_case(case)
+            rtags = []
+            problems, raised = real_case(case, rtags)
             ovf = overflow_config(case["N"], case["vmin"], case["vmax"])
             chk.case(case, nontrivial=True,
                      sample={"suite": "real", "N": case["N"], "v": [case["vmin"], case["vmax"]],
                              "rewards": [r["r"] for r in case["one"]]},
-                     tags=["real-nets", "real-overflow-config" if ovf else "real-plain-config"])
+                     tags=["real-nets", "real-overflow-config" if ovf else "real-plain-config"] + sorted(set(rtags)))
             if problems:
                 n_real_bad += 1
                 if ovf:
